@@ -58,6 +58,9 @@ checks["C20"] = dict(level="model_checking", text="Remote.tla models readRemoteN
 checks["C16"] = dict(level="exploration", text="Shape.tla describes the universe of wrong-shaped Taskfiles (a valid baseline with one or two deviations: one of 15 YAML node kinds at one of 64 schema positions; line terminator LF/CRLF/CR; trailing newline) and specifies only the class of outcome (success or diagnosed error). TLC enumerates all single-deviation documents; pairs are sampled from the same universe. Every document is driven through Setup, listing, compiling, Status and a dry Run of every task name in a worker process; panic (recovered or process death) or a hang is a violation; a sample goes through the CLI (exit status in the documented set). Together with the C15 run (hostile task names) this is exploration guided by the specification, not a proof over byte strings.",
    note="Trusted: the worker/recover harness; shapes not bytes (DESIGN 8): invalid UTF-8, anchors/merge keys, deep nesting, git URLs are outside the universe.", ref="DESIGN.md 4.3 (Shape), 5 (C16), 8", tech="TLA+ cases specification of document shapes enumerated by TLC, each document exercised through the public API in a crash-isolating worker", engine="shape")
 
+checks["C18"] = dict(level="exploration", text="The programs of the Exec specification family (hand-written core scenarios + seeded samples: parallel deps, nested calls, deduplicated tasks, for-loops, defers) are executed by a -race build of the harness under seeded release orders of the blocked probes and GOMAXPROCS 2/4/16, plus fixed workloads for features outside the Exec model (matrix refs from parallel deps, dynamic variables, prefixed/group writers, one file included twice, listing while running). The Go race detector is the oracle; a report counts when both access stacks have frames of Task's own packages. The specification supplies workloads and schedules; it does not model memory accesses.",
+   note="Trusted: the Go race detector (it only sees executed interleavings). Exploration, not exhaustive.", ref="DESIGN.md 5 (C18), 8", tech="spec-generated concurrent workloads and schedules (Exec family) run under the Go race detector", engine="race")
+
 ALL = ["C%02d" % i for i in range(1, 21)]
 pending = {p: "check not built yet in this round (planned, see DESIGN.md section 5)" for p in ALL if p not in checks}
 
@@ -79,6 +82,7 @@ m = {
   {"name": "out", "path": "specs/out + harness/outfam", "serves_properties": ["C17"], "kind_free_text": "TLA+ model of group/prefixed writers; blocking-sink replay"},
   {"name": "remote", "path": "specs/remote + harness/remotefam", "serves_properties": ["C20"], "kind_free_text": "TLA+ model of the remote Taskfile cache; CLI histories against a local HTTP server"},
   {"name": "shape", "path": "specs/shape + harness/shapefam", "serves_properties": ["C16"], "kind_free_text": "TLA+ universe of wrong-shaped documents; crash-isolating API driver"},
+  {"name": "race", "path": "harness/racefam (+ specs/exec programs)", "serves_properties": ["C18"], "kind_free_text": "-race build of the harness running the Exec family's programs and schedules"},
  ],
  "checks": [], "not_applicable": [], "notes": "Every check: bash /verif/run.sh <id> <quick|thorough>; replay: bash /verif/run.sh <id> --replay <file>."
 }
